@@ -2,7 +2,7 @@
    Print Assumptions. *)
 From Coq Require Import ZArith NArith List Bool Sorted.
 From Centro Require Import Base.GraphC15 Model.LabelGraph Spec.LabelGraph
-  Proofs.ColorC15 Proofs.DfsC15 Proofs.AccC15 Proofs.EulerC15 Proofs.RelabelC15.
+  Proofs.ColorC15 Proofs.DfsC15 Proofs.AccC15 Proofs.EulerC15 Proofs.RelabelC15 Proofs.NeighborsC15.
 Import ListNotations.
 
 (* ---- all_connected_components / _all_connected_components (Full, including termination) ----
@@ -48,6 +48,25 @@ Theorem C15_relabel_spec : forall img : image, exists f : Z -> Z,
   (forall k, 1 <= k <= snd (relabel img) -> exists x, x <> 0 /\ In x (concat img) /\ f x = k).
 Proof. exact relabel_spec. Qed.
 Print Assumptions C15_relabel_spec.
+
+(* ---- find_neighbors (Full): for every rectangular label image and every label 1..max, the slice
+   of v_neighbor given by v_index / v_count (neighbors_of) is strictly increasing (no duplicates)
+   and lists exactly the labels m, not background and not l, that have a pixel 8-adjacent to a
+   pixel of l (touching; get2 is 0 outside the image) ---- *)
+Theorem C15_find_neighbors_spec : forall img : image, rect img ->
+  length (fst (fst (find_neighbors img))) = Z.to_nat (img_max img) /\
+  length (snd (fst (find_neighbors img))) = Z.to_nat (img_max img) /\
+  forall l, 1 <= l <= img_max img ->
+    StronglySorted Z.lt (neighbors_of img l) /\
+    forall m, In m (neighbors_of img l) <-> m <> 0 /\ m <> l /\ touching img l m.
+Proof. exact find_neighbors_spec. Qed.
+Print Assumptions C15_find_neighbors_spec.
+
+Theorem C15_find_neighbors_symmetric : forall img : image, rect img ->
+  forall l m, 1 <= l <= img_max img -> 1 <= m <= img_max img ->
+  (In m (neighbors_of img l) <-> In l (neighbors_of img m)).
+Proof. exact find_neighbors_symmetric. Qed.
+Print Assumptions C15_find_neighbors_symmetric.
 
 (* ---- color_labels: the first-free-colour rule never returns a colour of a neighbour ---- *)
 Theorem C15_first_free_spec : forall colors k,
